@@ -130,6 +130,8 @@ def classify(item: dict) -> str:
             if name in optional or name not in mentioned:
                 return "optional"
             return "unclassified"
+        if ctx in ("type_member_attr", "dataset_attr") and name not in mentioned:
+            return "optional"    # attribute of a stored dataset that the format document does not mention ("... is optional information")
         return "unclassified"
     # links
     if ctx == "project_member":
